@@ -50,6 +50,15 @@
 //	liveness <H>                                         maxHeightCertified passed the change block  -> ok
 //	verify <h> <bits> <sig>                              verifyAggregateCommit                       -> accept|reject|panic
 //	vblock <h> <bits> <sig>                              block carrying that aggregate commit        -> applied|rejected|panic
+//	nv <holder|-> <t|h> own | empty | agg <h> <bits> <sig>
+//	                                                     block of the next slot of that holder (- : the generator of the
+//	                                                     next slot) declaring maxHeightGenerated truthfully (t) or
+//	                                                     = its height (h: the header implies no votes), carrying
+//	                                                     GetAggregateCommit() (as `block`), the empty commit at the height
+//	                                                     certified by the chain, or the given aggregate commit (as
+//	                                                     `vblock`); holders without BFT weight (standby generators,
+//	                                                     validators removed from the BFT set) imply no votes either
+//	                                                     (nonvoting.go)                              -> applied|rejected|err|panic
 //	   sig: - | garbage | inf | S/<holders>/<own|fork|chain2>:<h'> (aggregate of the holders' signatures
 //	        over the certificate of the own / a foreign block at h' or for another chain id) |
 //	        X/<holders>/<msg>:<h'> (the same with one flipped bit)
@@ -627,6 +636,8 @@ func (s *session) exec0(op string, idx int) (out string, fails []corr.Fail) {
 	switch w[0] {
 	case "rewind", "alt", "restart":
 		return s.execChain(w, op, idx)
+	case "nv":
+		return s.execNV(w, op, idx) // block of a chosen (non-voting) generator, nonvoting.go
 	case "params":
 		k := uint32(atoi(w[1]))
 		if !s.existParams(k) || s.paramsLine(k) != op {
@@ -1071,6 +1082,8 @@ func (prop) Classify(c corr.Case, out []string) string {
 			set["reorg"] = true
 		case "rewind", "restart":
 			set[w[0]] = true
+		case "nv":
+			set[nvClass(w, o)] = true
 		case "alt":
 			if len(w) > 2 && (w[2] == "own" || w[2] == "agg") {
 				set["alt-"+w[2]+"-"+o] = true
